@@ -21,9 +21,13 @@ func (s ExploreRecursiveEdge) Interests() []datamodel.PathSegment {
 	return []datamodel.PathSegment{}
 }
 
-// Explore should ultimately never get called for an ExploreRecursiveEdge selector
+// Explore is only reached for an edge that no ExploreRecursive has replaced yet:
+// one that sits at the top of a recursion's sequence (possibly inside unions),
+// so that it would recurse without consuming a path segment.
+// Such an edge selects nothing, which is also how ExploreRecursive treats a sequence that is just an edge.
+// (Selectors are untrusted input: this must not panic.)
 func (s ExploreRecursiveEdge) Explore(n datamodel.Node, p datamodel.PathSegment) (Selector, error) {
-	panic("Traversed Explore Recursive Edge Node With No Parent")
+	return nil, nil
 }
 
 // Decide should almost never get called for an ExploreRecursiveEdge selector
